@@ -398,7 +398,8 @@ const XMLCh* ListDatatypeValidator::getCanonicalRepresentation(const XMLCh*     
         }
     }
    
-    XMLSize_t retBufSize = 2 * XMLString::stringLen(rawData);
+    // (+ 1: room for the terminating null even when the value is empty)
+    XMLSize_t retBufSize = 2 * XMLString::stringLen(rawData) + 1;
     XMLCh* retBuf = (XMLCh*) toUse->allocate(retBufSize * sizeof(XMLCh));
     retBuf[0] = 0;
     XMLCh* retBufPtr = retBuf;
